@@ -3,7 +3,7 @@ From Alp Require Import Base.Str Base.Types Model.Reserve.
 Import ListNotations.
 Open Scope Z_scope.
 
-Definition sizes_ok (evs : list ev) : Prop := Forall (fun e => match e with Dispatch _ s _ _ _ => 0 <= s | Finish _ => True end) evs.
+Definition sizes_ok (evs : list ev) : Prop := Forall (fun e => match e with Dispatch _ s _ _ _ => 0 <= s | _ => True end) evs.
 Definition RInv (st : rstate) : Prop :=
   reserved st = outstanding (live st) /\ errors st = 0%nat /\ Forall (fun p => 0 <= snd p) (live st).
 
@@ -21,9 +21,9 @@ Proof.
     intros F; inversion F as [|? ? H1 H2]; subst. destruct (B H2) as [B1 B2]. split; [exact B1 | constructor; assumption].
 Qed.
 
-Lemma rinv_step st e : RInv st -> (match e with Dispatch _ s _ _ _ => 0 <= s | Finish _ => True end) -> RInv (rstep st e).
+Lemma rinv_step st e : RInv st -> (match e with Dispatch _ s _ _ _ => 0 <= s | _ => True end) -> RInv (rstep st e).
 Proof.
-  intros (HR & HE & HF) Hs. destruct e as [id size um om bavail | id]; cbn [rstep].
+  intros (HR & HE & HF) Hs. destruct e as [id size um om bavail | id |]; cbn [rstep]; [| |repeat split; assumption].
   - unfold pull_gate. destruct um; [repeat split; assumption|]. destruct om; [repeat split; assumption|].
     unfold reserve. destruct (insufficient bavail (reserved st) (size * factor)); unfold RInv; cbn [reserved live errors].
     + repeat split; assumption.
